@@ -4,4 +4,4 @@ CONSTANTS
 SPECIFICATION TraceSpec
 CHECK_DEADLOCK FALSE
 POSTCONDITION TraceAccepted
-INVARIANTS Conforms C13Granularity SpecC13
+INVARIANTS C13Granularity Conforms SpecC13
